@@ -11,7 +11,11 @@ type schedInfo struct {
 	impl *schedImpl
 }
 
-func analyseSched(p *packages.Package) *schedInfo { return &schedInfo{impl: analyse(p)} }
+func analyseSched(p *packages.Package) *schedInfo {
+	sc := &schedInfo{impl: analyse(p)}
+	sc.impl.collectWrites(p)
+	return sc
+}
 
 func instrumentSched(p *packages.Package, f *ast.File, sc *schedInfo) bool {
 	return sc.impl.instrument(p, f)
